@@ -377,6 +377,10 @@ func (m *ConnectMessage) Decode(src []byte) (int, error) {
 	}
 	total += n
 
+	if n != int(m.remlen) {
+		return total, fmt.Errorf("connect/Decode: Remaining length (%d) does not match the %d bytes of variable header and payload", m.remlen, n)
+	}
+
 	m.dirty = false
 
 	return total, nil
